@@ -53,7 +53,8 @@ def TestOneInput(data: bytes):
     STATS["execs"] += 1
     cfg, labels = decode_bytes(data)
     try:
-        _view, out_labels = check_total(cfg, REC, TMP, labels)
+        # the in-process CLI oracle (yaml dump/load + 3 main() calls) on every 8th input; the API oracles on all
+        _view, out_labels = check_total(cfg, REC, TMP, labels, with_cli=(STATS["execs"] % 8 == 0))
     except Violation as v:
         with open(os.path.join(OUT, "failure.json"), "w", encoding="utf-8") as f:
             json.dump({"case": v.case, "sig": v.sig, "message": v.message, "input_hex": data.hex()}, f)
